@@ -30,7 +30,10 @@ RULE = ("a real fbserver.Server per configuration (child process of the harness;
         "all header flags set; fixed part of every run: ANY questions in classes CH, HS, NONE and ANY for names present in the "
         "database on every refuse-any configuration over both transports (40 cases), and client-subnet options (v4 /24, v6 /56, "
         "v6 /128) x advertised sizes 512/600/1232 and U-1/U-9 (U = uncompressed length of the full reply) x the 12-MX, 14-NS "
-        "delegation/referral and TXT-set names over UDP, one per combination also over TCP (~75 cases); the same wire message is given in-process to a bare FBDNSDB over the same database with the "
+        "delegation/referral and TXT-set names over UDP, one per combination also over TCP (~75 cases), and on every configuration "
+        "and both transports a sequence REFUSED name / A / TXT with distinct ids over ONE connection or socket, one case per "
+        "position (earlier messages = prefix), the socket read for 120 ms more after the reply (60 cases; extra = messages that "
+        "still arrived; nwrites = messages the bare handler handed to its writer); the same wire message is given in-process to a bare FBDNSDB over the same database with the "
         "listener's max answer; sections are compared as multisets of (lower-cased owner, type, class, ttl, rdata), the "
         "question section, header bits, id and wire length exactly; "
         "opt-in (environment C20_CACHE_CONFIGS=1, not part of the default run): two configurations with the response cache "
@@ -155,9 +158,10 @@ def to_coq(c):
     full = None
     if _usable(c.get("full")) and c.get("full_sizes") is not None:
         full = cpair(obs(c["full"]), _sz(c["full_sizes"]))
-    body = "mk %s %s %s %s %s %s %s %s %s" % (
+    body = "mk %s %s %s %s %s %s %s %s %d %d %s" % (
         cfgt, envt, req, cbool(c.get("multi", False)), copt(reply), copt(bare),
-        copt(full), copt(_sz(c.get("self_sizes")) if _path(c) == "whoami" else None), cbool(c["alive"]))
+        copt(full), copt(_sz(c.get("self_sizes")) if _path(c) == "whoami" else None),
+        c.get("nwrites", 0), c.get("extra", 0), cbool(c["alive"]))
     return "(" + " ".join(pool.binds + mbinds) + " " + body + ")"
 
 
@@ -165,7 +169,7 @@ def nontrivial(c):
     if c.get("req_unpack_fails"):
         return None
     return [c["cfg"]["whoami"], c["cfg"]["refuse_any"], c["cfg"]["accept_all"], c["cfg"]["driver"], c["cfg"]["compress"],
-            c["cfg"].get("cache", False), c["ip"], c["proto"], c["wire"][2:]]
+            c["cfg"].get("cache", False), c["ip"], c["proto"], c["wire"][2:], len(c.get("prefix") or [])]
 
 
 def _path(c):
